@@ -688,23 +688,10 @@ def merge_measure_contents(notes, other, measure_start):
             elements = merged[voice]
 
         else:
-            elements = notes[voice]
-
-        # backup/forward when switching voices if necessary
-        if elements:
-            gap = elements[0][0] - pos
-
-            if gap < 0:
-                e = etree.Element("backup")
-                ee = etree.SubElement(e, "duration")
-                ee.text = "{:d}".format(-int(gap))
-                result.append(e)
-
-            elif gap > 0:
-                e = etree.Element("forward")
-                ee = etree.SubElement(e, "duration")
-                ee.text = "{:d}".format(int(gap))
-                result.append(e)
+            # the other voices contain notes only; like the first voice they
+            # need a forward wherever there is a gap between two notes (and a
+            # backup/forward to reach the first note when switching voices)
+            elements, _ = merge_with_voice(notes[voice], [], pos)
 
         result.extend([e for _, _, e in elements])
 
